@@ -396,3 +396,44 @@ Proof.
     replace (S 0 - Nat.max 1 (c - w_far w)) with 0 by lia. cbn. tauto.
   - unfold union_props, heights. tauto.
 Qed.
+
+(* ---------- corollaries over whole histories ------------------------------ *)
+(* the view is a function of the chain alone: two histories (any reorgs,
+   truncations and restarts) that end on the same chain end with the same
+   committable and gap sets *)
+Theorem view_history_independent w : wf_window w -> forall ops1 ops2,
+  ops_ok [[]] ops1 -> ops_ok [[]] ops2 ->
+  let s1 := prun_state w (genesis_state []) ops1 in
+  let s2 := prun_state w (genesis_state []) ops2 in
+  p_chain s1 = p_chain s2 ->
+  v_set (p_view s1) = v_set (p_view s2) /\ v_gap (p_view s1) = v_gap (p_view s2).
+Proof.
+  intros Hw ops1 ops2 H1 H2 s1 s2 Hch.
+  destruct (view_always_window w Hw ops1 (genesis_state []) (genesis_inv w Hw) H1) as (_ & _ & Hs1 & Hg1).
+  destruct (view_always_window w Hw ops2 (genesis_state []) (genesis_inv w Hw) H2) as (_ & _ & Hs2 & Hg2).
+  fold s1 in Hs1, Hg1. fold s2 in Hs2, Hg2. rewrite Hs1, Hs2, Hg1, Hg2, Hch. split; reflexivity.
+Qed.
+
+(* a restart at any point of any history rebuilds exactly the view the
+   running node holds *)
+Theorem restart_any_time w : wf_window w -> forall ops,
+  ops_ok [[]] ops ->
+  let s := prun_state w (genesis_state []) ops in
+  v_set (snd (init_table w (p_chain s))) = v_set (p_view s) /\
+  v_gap (snd (init_table w (p_chain s))) = v_gap (p_view s).
+Proof.
+  intros Hw ops Hok s. apply init_eq_incremental; [exact Hw|].
+  exact (view_always_window w Hw ops (genesis_state []) (genesis_inv w Hw) Hok).
+Qed.
+
+(* after any history the ids the node offers for commitment are exactly the
+   ids the block verifier's walk would accept in the next block *)
+Theorem view_always_matches_verifier w : wf_window w -> forall ops x,
+  ops_ok [[]] ops ->
+  let s := prun_state w (genesis_state []) ops in
+  In x (v_set (p_view s)) <-> In x (verifier_window w (p_chain s)).
+Proof.
+  intros Hw ops x Hok s.
+  destruct (view_always_window w Hw ops (genesis_state []) (genesis_inv w Hw) Hok) as (_ & _ & Hs & _).
+  fold s in Hs. rewrite Hs. symmetry. apply view_matches_verifier. exact Hw.
+Qed.
